@@ -24,6 +24,8 @@ macro_rules! float_passthrough {
             let v: $t = s.$draw();
             let mode = s.u8();
             assume!(s, mode < 5);
+            // an <NRf> literal never denotes NaN (the keyword NAN is decided in float_keywords)
+            assume!(s, !(mode == 0 && v.is_nan()));
             #[cfg(kani)]
             let r = {
                 unsafe {
@@ -49,6 +51,12 @@ macro_rules! float_passthrough {
                 let mut cands = std::vec![v];
                 if single && v.is_finite() && v != 0.0 {
                     cands.push(<$t>::from_bits(v.to_bits() + 1));
+                }
+                if single {
+                    // two fixed odd-mantissa probes, so that the replay does not depend on which value
+                    // the solver happened to pick
+                    cands.push(1.0000001 as $t);
+                    cands.push(1.0000004 as $t);
                 }
                 let mut bad = false;
                 for c in cands {
